@@ -8,7 +8,7 @@ From ClapModel Require Import Base.Bytes Base.Machine Base.Utf8 Lex.OsStrExtMode
 From ClapModel Require Import Parse.Cmd Parse.Build Parse.Valid Parse.Matcher Parse.Errors Parse.Validator Parse.Parser.
 From ClapModel Require Import ParseProofs.Safe ParseProofs.Invariant ParseProofs.Totality ParseProofs.TotalityMain
   ParseProofs.Sources ParseProofs.Spelling ParseProofs.Dispatch ParseProofs.Provenance
-  ParseProofs.Escape ParseProofs.EscapeWalk ParseProofs.EscapeStore.
+  ParseProofs.Escape ParseProofs.EscapeWalk ParseProofs.EscapeStore ParseProofs.EscapeSub.
 From Coq Require Import ZArith Lia List Bool.
 From RecordUpdate Require Import RecordSet.
 Import RecordSetNotations.
@@ -369,10 +369,12 @@ Fixpoint prefix_same (fuel : nat) (c : cmd) (m1 m2 : matches) : Prop :=
          forall y e, touched c a y = false -> find_group c y = None ->
                      fm_get y (ms_args m1) = Some e -> m_source e = Some SCmdLine -> fm_get y (ms_args m2) = Some e)
       \/ (exists name sc sm1 sm2, build_subcommand c name = Some sc /\ ms_sub m1 = Some (c_name sc, sm1)
-                                  /\ ms_sub m2 = Some (c_name sc, sm2) /\ prefix_same f sc sm1 sm2)
+                                  /\ ms_sub m2 = Some (c_name sc, sm2) /\ ms_args m1 = ms_args m2
+                                  /\ prefix_same f sc sm1 sm2)
       \/ (exists name vals t1 t2,
             ms_sub m1 = Some (name, Matches [(ext_id, ext_marg (vals ++ dashdash :: t1))] None) /\
-            ms_sub m2 = Some (name, Matches [(ext_id, ext_marg (vals ++ dashdash :: t2))] None))
+            ms_sub m2 = Some (name, Matches [(ext_id, ext_marg (vals ++ dashdash :: t2))] None) /\
+            ms_args m1 = ms_args m2)
   end.
 
 Lemma after_sub_ok f c n k v st1 rest stp :
@@ -402,8 +404,8 @@ Proof.
   - cbn [prefix_same]. left. intros a Ha. destruct (Hc a Ha) as (l1 & l2 & _ & _ & G1 & G2 & G3).
     split; [cbn; rewrite G1; exact Hs0|]. split; [cbn; rewrite G2; exact Hs0|]. exact G3.
   - destruct Hc as (n & k & v & st1 & r & EL1 & EL2). rewrite gmw_unfold in H1, H2.
-    destruct (post_ok_inv c _ _ H1) as (p1 & ? & ? & Hparsed1 & _).
-    destruct (post_ok_inv c _ _ H2) as (p2 & ? & ? & Hparsed2 & _).
+    destruct (post_ok_inv c _ _ H1) as (p1 & q1 & e1 & Hparsed1 & A1 & A2 & A3).
+    destruct (post_ok_inv c _ _ H2) as (p2 & q2 & e2 & Hparsed2 & B1 & B2 & B3).
     pose proof (post_keeps_sub c (mt_sub (mt p1)) (ROk p1) eq_refl) as Hk1.
     pose proof (post_keeps_sub c (mt_sub (mt p2)) (ROk p2) eq_refl) as Hk2.
     rewrite Hparsed1 in H1. rewrite H1 in Hk1. rewrite Hparsed2 in H2. rewrite H2 in Hk2.
@@ -413,13 +415,15 @@ Proof.
     destruct (after_sub_ok _ _ _ _ _ _ _ _ Hig Hparsed1) as (sc0 & sc & sub1 & Ef & Eb & Eg1 & ->).
     destruct (after_sub_ok _ _ _ _ _ _ _ _ Hig Hparsed2) as (sc0' & sc' & sub2 & Ef' & Eb' & Eg2 & ->).
     rewrite Ef in Ef'. injection Ef' as <-. rewrite Eb in Eb'. injection Eb' as <-.
+    rewrite record_sub_ssub in A1, B1.
+    destruct (phases_ssub c _ _ _ _ _ _ _ _ _ A1 A2 A3 B1 B2 B3) as (d0 & -> & ->).
     cbn [prefix_same]. right. left. exists (c_name sc0), sc, (into_inner (mt sub1)), (into_inner (mt sub2)).
     split; [exact Eb|]. split; [cbn [into_inner ms_sub]; rewrite Hk1; reflexivity|].
-    split; [cbn [into_inner ms_sub]; rewrite Hk2; reflexivity|].
+    split; [cbn [into_inner ms_sub]; rewrite Hk2; reflexivity|]. split; [reflexivity|].
     apply (IH sc r t1 t2 (sub_init k st1) sub1 sub2 (Hch _ _ Eb)); [| |exact Eg1|exact Eg2]; unfold sub_init; destruct k; reflexivity.
   - destruct Hc as (tk & r & st1 & EL1 & EL2). rewrite gmw_unfold in H1, H2.
-    destruct (post_ok_inv c _ _ H1) as (p1 & ? & ? & Hparsed1 & _).
-    destruct (post_ok_inv c _ _ H2) as (p2 & ? & ? & Hparsed2 & _).
+    destruct (post_ok_inv c _ _ H1) as (p1 & q1 & e1 & Hparsed1 & A1 & A2 & A3).
+    destruct (post_ok_inv c _ _ H2) as (p2 & q2 & e2 & Hparsed2 & B1 & B2 & B3).
     pose proof (post_keeps_sub c (mt_sub (mt p1)) (ROk p1) eq_refl) as Hk1.
     pose proof (post_keeps_sub c (mt_sub (mt p2)) (ROk p2) eq_refl) as Hk2.
     rewrite Hparsed1 in H1. rewrite H1 in Hk1. rewrite Hparsed2 in H2. rewrite H2 in Hk2.
@@ -428,9 +432,14 @@ Proof.
     rewrite EL1 in Hparsed1. rewrite EL2 in Hparsed2. cbn [rbind] in Hparsed1, Hparsed2.
     pose proof (external_verbatim c tk (r ++ dashdash :: t1) st1) as Hx1. rewrite Hparsed1 in Hx1. cbn [holds] in Hx1.
     pose proof (external_verbatim c tk (r ++ dashdash :: t2) st1) as Hx2. rewrite Hparsed2 in Hx2. cbn [holds] in Hx2.
-    cbn [prefix_same]. right. right. exists tk, r, t1, t2. cbn [into_inner ms_sub]. rewrite Hk1, Hk2, Hx1, Hx2. split; reflexivity.
+    assert (Hargs : mt_args (mt s1) = mt_args (mt s2)).
+    { subst p1 p2.
+      destruct (phases_ssub c (Some (tk, Matches [(ext_id, ext_marg (r ++ dashdash :: t1))] None))
+                  (Some (tk, Matches [(ext_id, ext_marg (r ++ dashdash :: t2))] None)) st1 _ _ _ _ _ _ A1 A2 A3 B1 B2 B3)
+        as (d0 & -> & ->). reflexivity. }
+    cbn [prefix_same]. right. right. exists tk, r, t1, t2. cbn [into_inner ms_sub ms_args]. rewrite Hk1, Hk2, Hx1, Hx2.
+    split; [reflexivity|]. split; [reflexivity|exact Hargs].
 Qed.
-
 
 (** * [do_parse] / [parse_top] *)
 Fixpoint esc_okb (fuel : nat) (c : cmd) : bool :=
